@@ -862,7 +862,11 @@ func (e *aEnv) step(st aStep, idx int) (res aRes) {
 		if st.Secs > 0 {
 			prev = time.Now().Add(-time.Duration(st.Secs * float64(time.Second)))
 		}
-		if err := store.VerifGCPass(e.s.store, time.Now(), prev); err != nil {
+		pass := store.VerifGCPass
+		if st.Partial {
+			pass = store.VerifGCPassRaw // (the pass as the ticker runs it, with its own test which repositories to visit)
+		}
+		if err := pass(e.s.store, time.Now(), prev); err != nil {
 			res.Err = err.Error()
 		}
 	case "restart":
